@@ -168,6 +168,32 @@ Qed.
 (* One value arriving at a builder                                      *)
 (* ------------------------------------------------------------------ *)
 
+(* values that may be map keys in the fragment: comparable, compared by content *)
+Definition keyval (x : uval) : bool :=
+  match x with
+  | UBool _ | UInt _ | UUint _ | UStr _ | UUid _ | UCTime _ => true
+  | UTime i o => bytes_eqb i o
+  | _ => false
+  end.
+
+Lemma keyval_hashable x : keyval x = true -> hashable x = true.
+Proof. destruct x; cbn; congruence. Qed.
+
+Lemma keyval_no_hole x : keyval x = true -> has_hole x = false.
+Proof. destruct x; cbn; congruence. Qed.
+
+Lemma keyval_eq a b :
+  keyval a = true -> keyval b = true -> key_eqb a b = true -> dkey_eqb (to_dv a) (to_dv b) = true.
+Proof.
+  destruct a, b; cbn [keyval key_eqb to_dv dkey_eqb]; try congruence; try (intros _ _ H; exact H).
+  - intros _ _ H. apply N.eqb_eq in H. subst. apply Z.eqb_refl.
+  - intros Ha Hb H. apply bytes_eqb_eq in Ha, Hb, H. subst. apply bytes_eqb_eq. reflexivity.
+Qed.
+
+(* the key the record builder sends before its next value *)
+Definition rec_key (keys : list scalar) (i : nat) : option uval :=
+  match nth_error keys i with Some sc => rkey sc | None => None end.
+
 (* the effect of a finished value on the builder at the top of [base]
    (isc: the value is a container, which matters only for the top-level builder) *)
 Definition put (v : uval) (isc : bool) (base : list frame) (tob : topobj) : option (list frame * topobj) :=
@@ -177,11 +203,41 @@ Definition put (v : uval) (isc : bool) (base : list frame) (tob : topobj) : opti
                  | TDone _ => None
                  end
   | FSlice l :: r => Some (FSlice (l ++ [v]) :: r, tob)
-  | FMap id kvs _ false None :: r => Some (FMap id kvs (Some v) true None :: r, tob)
-  | FMap id kvs (Some k) true None :: r =>
-      if hashable k then Some (FMap id (assoc_set k v kvs) (Some k) false None :: r, tob) else None
+  | FMap id kvs key w rc :: r =>
+      match w, rc with
+      | false, None => Some (FMap id kvs (Some v) true None :: r, tob)
+      | false, Some (keys, i) =>
+          match rec_key keys i with
+          | Some k => Some (FMap id (assoc_set k v kvs) (Some k) false (Some (keys, S i)) :: r, tob)
+          | None => None
+          end
+      | true, None =>
+          match key with
+          | Some k => if hashable k then Some (FMap id (assoc_set k v kvs) (Some k) false None :: r, tob) else None
+          | None => None
+          end
+      | true, Some _ => None
+      end
   | FNode false _ :: r => Some (FSlice [] :: FNode true v :: r, tob)
   | _ => None
+  end.
+
+(* a record builder that has sent its key and waits for the container it started to finish *)
+Definition keyed (fr : frame) : frame :=
+  match fr with
+  | FMap id kvs key false (Some (keys, i)) =>
+      match rec_key keys i with
+      | Some k => FMap id kvs (Some k) true (Some (keys, S i))
+      | None => fr
+      end
+  | _ => fr
+  end.
+(* the effect of a finished container on the builder that started it *)
+Definition putc (v : uval) (base : list frame) (tob : topobj) : option (list frame * topobj) :=
+  match base with
+  | FMap id kvs (Some k) true (Some rc) :: r =>
+      if hashable k then Some (FMap id (assoc_set k v kvs) (Some k) false (Some rc) :: r, tob) else None
+  | _ => put v true base tob
   end.
 
 Definition mkframes (mk : option bytes) (isc : bool) : list frame :=
@@ -191,9 +247,30 @@ Definition mkentry (mk : option bytes) (v : uval) : list (bytes * uval) :=
 Definition node_top (base : list frame) : bool :=
   match base with FNode _ _ :: _ => true | _ => false end.
 
+Lemma rkey_keyval sc k : rkey sc = Some k -> keyval k = true.
+Proof.
+  destruct sc; cbn [rkey]; intro H; try discriminate; try (inversion H; subst; reflexivity);
+    match type of H with (if ?c then _ else _) = _ => destruct c end; inversion H; subst; reflexivity.
+Qed.
+
 Section Arrival.
   Variable uc : bytes -> option bytes.
   Variable tc : bytes -> option (bytes * bytes).
+
+  Lemma rkey_conv sc k p : rkey sc = Some k -> conv uc tc p sc = Some k.
+  Proof.
+    destruct sc; cbn [rkey conv]; intro H; try discriminate; try (inversion H; subst; reflexivity).
+    - destruct (N.eqb_spec t AT_String); [|discriminate]. subst t. inversion H; subst. reflexivity.
+    - destruct (N.eqb_spec t AT_String); [|discriminate]. subst t. inversion H; subst. reflexivity.
+  Qed.
+
+  Lemma send_key_rec p id kvs key keys i k :
+    rec_key keys i = Some k ->
+    send_key uc tc p (FMap id kvs key false (Some (keys, i))) = Some (FMap id kvs (Some k) true (Some (keys, S i))).
+  Proof.
+    unfold rec_key. cbn [send_key]. destruct (nth_error keys i) as [sc|]; [|discriminate].
+    intro H. rewrite (rkey_conv sc k p H). reflexivity.
+  Qed.
 
   Lemma notify_marker_nopending id v st :
     pending st = [] ->
@@ -232,6 +309,23 @@ Section Arrival.
     end.
   Proof. destruct below; reflexivity. Qed.
 
+  Lemma recv_scalar_rec sc above id kvs key keys i k below st :
+    rec_key keys i = Some k ->
+    recv_scalar uc tc sc above (FMap id kvs key false (Some (keys, i))) below st =
+    match conv uc tc (next st) sc with
+    | None => RPanic (set_stack (bump st) (above ++ FMap id kvs (Some k) true (Some (keys, S i)) :: below))
+    | Some x => ROk (set_stack (bump st)
+                      (above ++ FMap id (assoc_set k x kvs) (Some k) false (Some (keys, S i)) :: below))
+    end.
+  Proof.
+    intro H. pose proof (send_key_rec (next st) id kvs key keys i k H) as Hs.
+    assert (Hh : hashable k = true).
+    { apply keyval_hashable. unfold rec_key in H. destruct (nth_error keys i) as [s0|]; [|discriminate].
+      apply (rkey_keyval s0 k H). }
+    destruct below; cbn [recv_scalar]; rewrite Hs; destruct (conv uc tc (next st) sc); try reflexivity;
+      cbn [map_store]; rewrite Hh; reflexivity.
+  Qed.
+
   Lemma recv_scalar_node sc above cm v below st :
     recv_scalar uc tc sc above (FNode cm v) below st =
     match conv uc tc (next st) sc with
@@ -258,7 +352,7 @@ Section Arrival.
     (mk <> None -> node_top base = false) ->
     (forall id, mk = Some id -> mem_id id (map fst (marked st)) = false) ->
     exists st', on_scalar uc tc sc st = ROk st' /\ stack st' = s' /\ tobj st' = t' /\
-                marked st' = mkentry mk x ++ marked st /\ pending st' = [].
+                marked st' = mkentry mk x ++ marked st /\ pending st' = [] /\ rt_tab st' = rt_tab st.
   Proof.
     intros Hst Hp Hc Hput Hnode Hfresh. unfold on_scalar. rewrite Hst.
     destruct base as [|fr r]; [destruct mk; discriminate|].
@@ -281,16 +375,22 @@ Section Arrival.
         eexists. split; [reflexivity|]. cbn.
         rewrite filter_fresh by exact Hfresh. auto.
       + (* FMap *)
-        destruct rec; [destruct key, want_value; discriminate|].
-        rewrite recv_scalar_map, Hc.
-        destruct want_value.
+        destruct want_value, rec as [[keys i]|]; try discriminate.
         * destruct key as [k|]; [|discriminate]. destruct (hashable k) eqn:Hh; [|discriminate].
+          rewrite recv_scalar_map, Hc.
           inversion Hput; subst. cbn [map_store]. rewrite Hh. cbn [rbind].
           cbn [stack set_stack app tl].
           rewrite notify_marker_nopending by exact Hp.
           eexists. split; [reflexivity|]. cbn.
           rewrite filter_fresh by exact Hfresh. auto.
-        * destruct key; inversion Hput; subst; cbn [map_store rbind];
+        * destruct (rec_key keys i) as [k|] eqn:Hrk; [|discriminate].
+          rewrite (recv_scalar_rec sc _ id0 kvs key keys i k r st Hrk), Hc.
+          inversion Hput; subst. cbn [rbind].
+          cbn [stack set_stack app tl].
+          rewrite notify_marker_nopending by exact Hp.
+          eexists. split; [reflexivity|]. cbn.
+          rewrite filter_fresh by exact Hfresh. auto.
+        * rewrite recv_scalar_map, Hc. inversion Hput; subst; cbn [map_store rbind];
             cbn [stack set_stack app tl];
             rewrite notify_marker_nopending by exact Hp;
             (eexists; split; [reflexivity|]; cbn;
@@ -301,17 +401,23 @@ Section Arrival.
         inversion Hput; subst. eexists. split; [reflexivity|]. cbn. auto.
       + rewrite recv_scalar_slice, Hc. inversion Hput; subst.
         eexists. split; [reflexivity|]. cbn. auto.
-      + destruct rec; [destruct key, want_value; discriminate|].
-        rewrite recv_scalar_map, Hc. destruct want_value.
+      + destruct want_value, rec as [[keys i]|]; try discriminate.
         * destruct key as [k|]; [|discriminate]. destruct (hashable k) eqn:Hh; [|discriminate].
+          rewrite recv_scalar_map, Hc.
           inversion Hput; subst. cbn [map_store]. rewrite Hh.
           eexists. split; [reflexivity|]. cbn. auto.
-        * destruct key; inversion Hput; subst; cbn [map_store];
+        * destruct (rec_key keys i) as [k|] eqn:Hrk; [|discriminate].
+          rewrite (recv_scalar_rec sc [] id kvs key keys i k r st Hrk), Hc.
+          inversion Hput; subst. eexists. split; [reflexivity|]. cbn. auto.
+        * rewrite recv_scalar_map, Hc. inversion Hput; subst; cbn [map_store];
             (eexists; split; [reflexivity|]; cbn; auto).
       + destruct children_mode; [discriminate|]. rewrite recv_scalar_node, Hc.
         inversion Hput; subst. eexists. split; [reflexivity|]. cbn. auto.
   Qed.
 End Arrival.
+
+Definition ready (base : list frame) (tob : topobj) : bool :=
+  match put UNil false base tob with Some _ => true | None => false end.
 
 Section Containers.
   Variable uc : bytes -> option bytes.
@@ -320,20 +426,18 @@ Section Containers.
   Lemma bytes_eqb_refl b : bytes_eqb b b = true.
   Proof. apply bytes_eqb_eq. reflexivity. Qed.
 
-  (* builders that start a container of their own when asked *)
-  Definition plain (fr : frame) : bool :=
-    match fr with
-    | FTop | FSlice _ | FMap _ _ _ _ None | FNode _ _ => true
-    | _ => false
-    end.
-
-  Lemma recv_begin_plain k above fr below st :
-    plain fr = true ->
+  (* a builder that can take a value starts a container of its own when asked; a record
+     builder sends its key first *)
+  Lemma recv_begin_ready k above fr r below st tob :
+    ready (fr :: r) tob = true ->
     recv_begin uc tc k above fr below st =
-    ROk (set_stack (bump (bump st)) (new_frame k (next st + 1) :: above ++ fr :: below)).
+    ROk (set_stack (bump (bump st)) (new_frame k (next st + 1) :: above ++ keyed fr :: below)).
   Proof.
-    intro H. destruct fr; try discriminate; try (destruct below; reflexivity).
-    destruct rec; [discriminate|]. destruct below; reflexivity.
+    unfold ready. intro H. destruct fr; cbn [put] in H; try discriminate; try (destruct below; reflexivity).
+    - destruct want_value, rec as [[keys i]|]; try discriminate; try (destruct below; reflexivity).
+      destruct (rec_key keys i) as [kk|] eqn:Hrk; [|discriminate].
+      pose proof (send_key_rec uc tc (next st) id kvs key keys i kk Hrk) as Hs.
+      cbn [keyed]. rewrite Hrk. destruct below; cbn [recv_begin]; rewrite Hs; reflexivity.
   Qed.
 
   Lemma recv_begin_marker k above id isc child below st :
@@ -344,22 +448,44 @@ Section Containers.
   Definition begin_kind (e : event) : option ckind :=
     match e with EList => Some KList | EMap => Some KMap | ENode => Some KNode | _ => None end.
 
+  Lemma recv_begin_through k mk fr r st :
+    stack st = mkframes mk false ++ fr :: r ->
+    ready (fr :: r) (tobj st) = true ->
+    match stack st with fr0 :: below => recv_begin uc tc k [] fr0 below st | [] => RPanic st end =
+    ROk (set_stack (bump (bump st)) (new_frame k (next st + 1) :: mkframes mk true ++ keyed fr :: r)).
+  Proof.
+    intros Hst Hrdy. rewrite Hst. destruct mk as [id|]; cbn [mkframes app].
+    - rewrite recv_begin_marker. rewrite (recv_begin_ready k _ fr r r st (tobj st) Hrdy). reflexivity.
+    - rewrite (recv_begin_ready k _ fr r r st (tobj st) Hrdy). reflexivity.
+  Qed.
+
   Lemma begin_container e k mk fr r st :
     begin_kind e = Some k ->
     stack st = mkframes mk false ++ fr :: r ->
-    plain fr = true ->
+    ready (fr :: r) (tobj st) = true ->
     exists st', step uc tc st e = ROk st' /\
-                stack st' = new_frame k (next st + 1) :: mkframes mk true ++ fr :: r /\
-                tobj st' = tobj st /\ marked st' = marked st /\ pending st' = pending st.
+                stack st' = new_frame k (next st + 1) :: mkframes mk true ++ keyed fr :: r /\
+                tobj st' = tobj st /\ marked st' = marked st /\ pending st' = pending st /\
+                rt_tab st' = rt_tab st.
   Proof.
-    intros Hk Hst Hpl.
+    intros Hk Hst Hrdy.
     assert (Hstep : step uc tc st e =
                     match stack st with fr :: below => recv_begin uc tc k [] fr below st | [] => RPanic st end).
     { destruct e; try discriminate; inversion Hk; subst; reflexivity. }
-    rewrite Hstep, Hst. destruct mk as [id|]; cbn [mkframes app].
-    - rewrite recv_begin_marker, recv_begin_plain by exact Hpl.
-      eexists. split; [reflexivity|]. cbn. auto.
-    - rewrite recv_begin_plain by exact Hpl. eexists. split; [reflexivity|]. cbn. auto.
+    rewrite Hstep, (recv_begin_through k mk fr r st Hst Hrdy).
+    eexists. split; [reflexivity|]. cbn. auto.
+  Qed.
+
+  Lemma putc_keyed v fr r tob :
+    ready (fr :: r) tob = true -> putc v (keyed fr :: r) tob = put v true (fr :: r) tob.
+  Proof.
+    unfold ready. destruct fr; cbn [put keyed putc]; try discriminate; try reflexivity.
+    - destruct key as [k0|], want_value, rec as [[keys i]|]; try discriminate; try reflexivity;
+        (destruct (rec_key keys i) as [k|] eqn:Hrk; [|discriminate]; intros _; cbn [putc];
+         rewrite (keyval_hashable k); [reflexivity|];
+         unfold rec_key in Hrk; destruct (nth_error keys i) as [s0|]; [|discriminate];
+         apply (rkey_keyval s0 k Hrk)).
+    - destruct children_mode; reflexivity.
   Qed.
 
   (* a finished container handed to the builder below (through its marker, if any) *)
@@ -367,14 +493,34 @@ Section Containers.
     stack st = mkframes mk true ++ base ->
     pending st = [] ->
     has_hole v = false ->
-    put v true base (tobj st) = Some (s', t') ->
+    putc v base (tobj st) = Some (s', t') ->
     (forall id, mk = Some id -> mem_id id (map fst (marked st)) = false) ->
     exists st', notify_done v st = ROk st' /\ stack st' = s' /\ tobj st' = t' /\
-                marked st' = mkentry mk v ++ marked st /\ pending st' = [].
+                marked st' = mkentry mk v ++ marked st /\ pending st' = [] /\ rt_tab st' = rt_tab st.
   Proof.
     intros Hst Hp Hh Hput Hfresh. unfold notify_done. rewrite Hst.
     pose proof (snap_no_hole v Hh) as Hsnap.
     destruct base as [|fr r]; [destruct mk; discriminate|].
+    assert (Hcore : forall st0, stack st0 = fr :: r -> tobj st0 = tobj st ->
+              exists st', done_to (S (length r)) v st0 = ROk st' /\ stack st' = s' /\ tobj st' = t' /\
+                          marked st' = marked st0 /\ pending st' = pending st0 /\ rt_tab st' = rt_tab st0).
+    { intros st0 Hs0 Ht0. cbn [done_to]. rewrite Hs0.
+      destruct fr; cbn [putc put] in Hput; try discriminate.
+      - destruct (tobj st) eqn:Et; [|discriminate]. inversion Hput; subst.
+        eexists. split; [reflexivity|]. cbn. auto.
+      - inversion Hput; subst. rewrite Hsnap. eexists. split; [reflexivity|]. cbn. auto.
+      - rewrite Hsnap. destruct key as [k|], want_value, rec as [[keys i]|]; cbn [putc put] in Hput; try discriminate.
+        + destruct (hashable k) eqn:Hk; [|discriminate]. inversion Hput; subst. cbn [map_store]. rewrite Hk.
+          eexists. split; [reflexivity|]. cbn. auto.
+        + destruct (hashable k) eqn:Hk; [|discriminate]. inversion Hput; subst. cbn [map_store]. rewrite Hk.
+          eexists. split; [reflexivity|]. cbn. auto.
+        + (* a record builder that has not sent its key gets no container *)
+          destruct (rec_key keys i); discriminate.
+        + inversion Hput; subst. cbn [map_store]. eexists. split; [reflexivity|]. cbn. auto.
+        + destruct (rec_key keys i); discriminate.
+        + inversion Hput; subst. cbn [map_store]. eexists. split; [reflexivity|]. cbn. auto.
+      - destruct children_mode; [discriminate|]. inversion Hput; subst. rewrite Hsnap.
+        eexists. split; [reflexivity|]. cbn. auto. }
     destruct mk as [id|]; cbn [mkframes app mkentry length].
     - specialize (Hfresh id eq_refl).
       cbn [done_to]. rewrite Hst. cbn [mkframes app].
@@ -382,32 +528,13 @@ Section Containers.
       cbn [marked set_refs lookup_marked]. rewrite bytes_eqb_refl.
       cbn [stack set_refs tl]. rewrite Hst. cbn [mkframes app tl].
       rewrite filter_fresh by exact Hfresh.
-      destruct fr; cbn [put] in Hput; try discriminate; cbn [done_to stack set_stack set_refs].
-      + destruct (tobj st) eqn:Et; [|discriminate]. inversion Hput; subst.
-        eexists. split; [reflexivity|]. cbn. auto.
-      + inversion Hput; subst. rewrite Hsnap. eexists. split; [reflexivity|]. cbn. auto.
-      + destruct rec; [destruct key, want_value; discriminate|]. rewrite Hsnap.
-        destruct want_value.
-        * destruct key as [k|]; [|discriminate]. destruct (hashable k) eqn:Hk; [|discriminate].
-          inversion Hput; subst. cbn [map_store]. rewrite Hk.
-          eexists. split; [reflexivity|]. cbn. auto.
-        * destruct key; inversion Hput; subst; cbn [map_store];
-            (eexists; split; [reflexivity|]; cbn; auto).
-      + destruct children_mode; [discriminate|]. inversion Hput; subst. rewrite Hsnap.
-        eexists. split; [reflexivity|]. cbn. auto.
-    - destruct fr; cbn [put] in Hput; try discriminate; cbn [done_to]; rewrite Hst; cbn [mkframes app].
-      + destruct (tobj st) eqn:Et; [|discriminate]. inversion Hput; subst.
-        eexists. split; [reflexivity|]. cbn. auto.
-      + inversion Hput; subst. rewrite Hsnap. eexists. split; [reflexivity|]. cbn. auto.
-      + destruct rec; [destruct key, want_value; discriminate|]. rewrite Hsnap.
-        destruct want_value.
-        * destruct key as [k|]; [|discriminate]. destruct (hashable k) eqn:Hk; [|discriminate].
-          inversion Hput; subst. cbn [map_store]. rewrite Hk.
-          eexists. split; [reflexivity|]. cbn. auto.
-        * destruct key; inversion Hput; subst; cbn [map_store];
-            (eexists; split; [reflexivity|]; cbn; auto).
-      + destruct children_mode; [discriminate|]. inversion Hput; subst. rewrite Hsnap.
-        eexists. split; [reflexivity|]. cbn. auto.
+      match goal with |- exists st', done_to _ _ ?S0 = _ /\ _ =>
+        destruct (Hcore S0 eq_refl eq_refl) as [st' [Hd [H1 [H2 [H3 [H4 H5]]]]]] end.
+      exists st'. split; [exact Hd|]. split; [exact H1|]. split; [exact H2|].
+      split; [rewrite H3; reflexivity|]. split; [rewrite H4; reflexivity|]. rewrite H5. reflexivity.
+    - destruct (Hcore st Hst eq_refl) as [st' [Hd [H1 [H2 [H3 [H4 H5]]]]]].
+      exists st'. split; [exact Hd|]. split; [exact H1|]. split; [exact H2|].
+      split; [rewrite H3; reflexivity|]. split; [rewrite H4; exact Hp|]. exact H5.
   Qed.
 
   (* a reference to a marker that is already complete *)
@@ -417,20 +544,26 @@ Section Containers.
     has_hole v = false ->
     (match fr with FTop => False | _ => True end) ->
     put v false (fr :: r) (tobj st) = Some (s', t') ->
-    (match fr with FMap _ _ _ false _ => False | _ => True end) ->
+    (match fr with FMap _ _ _ false None => False | _ => True end) ->
     exists st', step uc tc st (ERefLocal id) = ROk st' /\ stack st' = s' /\ tobj st' = t' /\
-                marked st' = marked st /\ pending st' = pending st.
+                marked st' = marked st /\ pending st' = pending st /\ rt_tab st' = rt_tab st.
   Proof.
     intros Hst Hl Hh Hnt Hput Hnk. cbn [step]. rewrite Hst. unfold recv_ref.
     pose proof (snap_no_hole v Hh) as Hsnap.
     destruct fr; cbn [put] in Hput; try discriminate; try contradiction.
     - inversion Hput; subst. cbn [send_key marked bump]. rewrite Hl, Hsnap.
       eexists. split; [reflexivity|]. cbn. auto.
-    - destruct rec; [destruct key, want_value; discriminate|].
-      destruct want_value; [|contradiction].
-      destruct key as [k|]; [|discriminate]. destruct (hashable k) eqn:Hk; [|discriminate].
-      inversion Hput; subst. cbn [send_key marked bump]. rewrite Hl, Hk, Hsnap.
-      eexists. split; [reflexivity|]. cbn. auto.
+    - destruct want_value, rec as [[keys i]|]; try discriminate; try contradiction.
+      + destruct key as [k|]; [|discriminate]. destruct (hashable k) eqn:Hk; [|discriminate].
+        inversion Hput; subst. cbn [send_key marked bump]. rewrite Hl, Hk, Hsnap.
+        eexists. split; [reflexivity|]. cbn. auto.
+      + destruct (rec_key keys i) as [k|] eqn:Hrk; [|discriminate].
+        rewrite (send_key_rec uc tc (next st) id0 kvs key keys i k Hrk).
+        assert (Hk : hashable k = true).
+        { apply keyval_hashable. unfold rec_key in Hrk. destruct (nth_error keys i); [|discriminate].
+          apply (rkey_keyval _ _ Hrk). }
+        inversion Hput; subst. cbn [marked bump]. rewrite Hl, Hk, Hsnap.
+        eexists. split; [reflexivity|]. cbn. auto.
     - destruct children_mode; [discriminate|]. inversion Hput; subst.
       cbn [send_key marked bump]. rewrite Hl, Hsnap.
       eexists. split; [reflexivity|]. cbn. auto.
@@ -440,28 +573,6 @@ End Containers.
 (* ------------------------------------------------------------------ *)
 (* Leaves of the fragment                                               *)
 (* ------------------------------------------------------------------ *)
-
-(* values that may be map keys in the fragment: comparable, compared by content *)
-Definition keyval (x : uval) : bool :=
-  match x with
-  | UBool _ | UInt _ | UUint _ | UStr _ | UUid _ | UCTime _ => true
-  | UTime i o => bytes_eqb i o
-  | _ => false
-  end.
-
-Lemma keyval_hashable x : keyval x = true -> hashable x = true.
-Proof. destruct x; cbn; congruence. Qed.
-
-Lemma keyval_no_hole x : keyval x = true -> has_hole x = false.
-Proof. destruct x; cbn; congruence. Qed.
-
-Lemma keyval_eq a b :
-  keyval a = true -> keyval b = true -> key_eqb a b = true -> dkey_eqb (to_dv a) (to_dv b) = true.
-Proof.
-  destruct a, b; cbn [keyval key_eqb to_dv dkey_eqb]; try congruence; try (intros _ _ H; exact H).
-  - intros _ _ H. apply N.eqb_eq in H. subst. apply Z.eqb_refl.
-  - intros Ha Hb H. apply bytes_eqb_eq in Ha, Hb, H. subst. apply bytes_eqb_eq. reflexivity.
-Qed.
 
 Section Leaves.
   Variable uc : bytes -> option bytes.
@@ -569,13 +680,15 @@ Section Leaves.
            eexists; split; [reflexivity|]; split; [reflexivity|]; split; [reflexivity|];
            intro Hp; subst; first [reflexivity | discriminate]).
     - (* ENegInt *)
-      apply andb_true_iff in H as [H0 Hk]. apply negb_true_iff in H0.
       do 2 eexists. split; [reflexivity|]. split; [reflexivity|]. intro k.
-      cbn [event_dv]. rewrite H0. unfold negint_scalar. rewrite H0.
-      destruct (n <=? max_int64) eqn:Hm.
-      + eexists. split; [reflexivity|]. split; [reflexivity|]. split; [reflexivity|]. reflexivity.
-      + eexists. split; [reflexivity|]. split; [reflexivity|]. split; [reflexivity|].
-        intro Hp. subst. cbn in Hk. congruence.
+      cbn [event_dv]. unfold negint_scalar.
+      destruct (n =? 0) eqn:H0.
+      + eexists. split; [reflexivity|]. split; [vm_compute; reflexivity|]. split; [reflexivity|].
+        intro Hp. subst. cbn in H. discriminate.
+      + destruct (n <=? max_int64) eqn:Hm.
+        * eexists. split; [reflexivity|]. split; [reflexivity|]. split; [reflexivity|]. reflexivity.
+        * eexists. split; [reflexivity|]. split; [reflexivity|]. split; [reflexivity|].
+          intro Hp. subst. cbn in H. discriminate.
     - (* EBigInt *) destruct v; do 2 eexists; (split; [reflexivity|]); (split; [reflexivity|]); intro k0;
         eexists; (split; [reflexivity|]); (split; [reflexivity|]); (split; [reflexivity|]);
         intro Hp; subst; discriminate.
@@ -630,49 +743,58 @@ Section Chunks.
     rewrite N.mod_add by discriminate. apply N.mod_small. lia.
   Qed.
 
-  Lemma chunks_exec es : forall rem more acc data st,
-    chunks_ok es rem more acc = Some data ->
-    crem st = rem -> cmore st = more -> cdata st = acc -> rem < two64 ->
-    exec uc tc st es = fire uc tc (set_chunk st data 0 false (ccb st)).
+  Lemma elem_byte_count_lt bits n : elem_byte_count bits n < two64.
   Proof.
-    induction es as [|e r IH]; intros rem more acc data st H Hr Hm Ha Hlt; cbn [chunks_ok] in H.
+    unfold elem_byte_count, two64.
+    assert (H : (n * bits) mod 18446744073709551616 / 8 < 18446744073709551616).
+    { apply N.div_lt_upper_bound; [discriminate|].
+      pose proof (N.mod_upper_bound (n * bits) 18446744073709551616 ltac:(discriminate)). lia. }
+    destruct ((bits =? 1) && negb (N.land n 7 =? 0)); [|exact H].
+    apply N.mod_upper_bound. discriminate.
+  Qed.
+
+  Lemma chunks_exec bits es : forall rem more acc data st,
+    chunks_ok bits es rem more acc = Some data ->
+    crem st = rem -> cmore st = more -> cdata st = acc -> cbits st = bits -> rem < two64 ->
+    exec uc tc st es = fire uc tc (set_chunk st data 0 false (ccb st) bits).
+  Proof.
+    induction es as [|e r IH]; intros rem more acc data st H Hr Hm Ha Hb Hlt; cbn [chunks_ok] in H.
     - discriminate.
     - destruct e; try discriminate.
       + (* chunk header *)
-        destruct (two64 <=? n) eqn:Hn; [discriminate|]. apply N.leb_gt in Hn.
-        cbn [exec step]. unfold on_chunk.
-        destruct (negb more0 && (n =? 0)) eqn:Hfire.
+        cbn [exec step]. unfold on_chunk. rewrite Hb.
+        destruct (negb more0 && (elem_byte_count bits n =? 0)) eqn:Hfire.
         * destruct r; [|discriminate]. inversion H; subst.
-          apply andb_true_iff in Hfire as [Hm0 Hn0]. apply negb_true_iff in Hm0. apply N.eqb_eq in Hn0. subst.
-          destruct (fire uc tc _); reflexivity.
-        * cbn [rbind]. erewrite IH; [reflexivity|exact H|reflexivity|reflexivity|exact Ha|exact Hn].
+          apply andb_true_iff in Hfire as [Hm0 Hn0]. apply negb_true_iff in Hm0. apply N.eqb_eq in Hn0.
+          rewrite Hn0, Hm0. destruct (fire uc tc _); reflexivity.
+        * cbn [rbind]. erewrite IH; [reflexivity|exact H|reflexivity|reflexivity|exact Ha|reflexivity|].
+          apply elem_byte_count_lt.
       + (* data *)
         destruct (rem <? N.of_nat (length data0)) eqn:Hk; [discriminate|]. apply N.ltb_ge in Hk.
-        cbn [exec step]. unfold on_data. rewrite Hr, Hm, Ha.
+        cbn [exec step]. unfold on_data. rewrite Hr, Hm, Ha, Hb.
         rewrite rem_sub by assumption.
         destruct (negb more && (rem - N.of_nat (length data0) =? 0)) eqn:Hfire.
         * destruct r; [|discriminate]. inversion H; subst.
           apply andb_true_iff in Hfire as [Hm0 Hn0]. apply negb_true_iff in Hm0. apply N.eqb_eq in Hn0.
           rewrite Hn0, Hm0. destruct (fire uc tc _); reflexivity.
-        * cbn [rbind]. erewrite IH; [reflexivity|exact H|reflexivity|reflexivity|reflexivity|].
+        * cbn [rbind]. erewrite IH; [reflexivity|exact H|reflexivity|reflexivity|reflexivity|reflexivity|].
           cbn [crem set_chunk]. lia.
   Qed.
 
   Lemma chunked_exec b body data st :
-    chunked_data body = Some data ->
-    exec uc tc st (begin_event b :: body) = fire uc tc (set_chunk st data 0 false (abegin_cb b)).
+    step uc tc st (begin_event b) = ROk (set_chunk st [] (crem st) (cmore st) (abegin_cb b) (abegin_bits b)) ->
+    chunked_data (abegin_bits b) body = Some data ->
+    exec uc tc st (begin_event b :: body) = fire uc tc (set_chunk st data 0 false (abegin_cb b) (abegin_bits b)).
   Proof.
-    unfold chunked_data. destruct body as [|e r]; [discriminate|].
+    intro Hb. unfold chunked_data. destruct body as [|e r]; [discriminate|].
     destruct e; try discriminate. intro H. cbn [chunks_ok] in H.
-    destruct (two64 <=? n) eqn:Hn; [discriminate|]. apply N.leb_gt in Hn.
-    assert (Hb : step uc tc st (begin_event b) = ROk (set_chunk st [] (crem st) (cmore st) (abegin_cb b))).
-    { destruct b; reflexivity. }
-    cbn [exec]. rewrite Hb. cbn [rbind step]. unfold on_chunk.
-    destruct (negb more && (n =? 0)) eqn:Hfire.
+    cbn [exec]. rewrite Hb. cbn [rbind step]. unfold on_chunk. cbn [cbits set_chunk].
+    destruct (negb more && (elem_byte_count (abegin_bits b) n =? 0)) eqn:Hfire.
     - destruct r; [|discriminate]. inversion H; subst.
-      apply andb_true_iff in Hfire as [Hm0 Hn0]. apply negb_true_iff in Hm0. apply N.eqb_eq in Hn0. subst.
-      cbn. destruct (fire uc tc _); reflexivity.
-    - cbn [rbind]. erewrite chunks_exec; [reflexivity|exact H|reflexivity|reflexivity|reflexivity|exact Hn].
+      apply andb_true_iff in Hfire as [Hm0 Hn0]. apply negb_true_iff in Hm0. apply N.eqb_eq in Hn0.
+      rewrite Hn0, Hm0. cbn. destruct (fire uc tc _); reflexivity.
+    - cbn [rbind]. erewrite chunks_exec; [reflexivity|exact H|reflexivity|reflexivity|reflexivity|reflexivity|].
+      apply elem_byte_count_lt.
   Qed.
 End Chunks.
 
@@ -797,7 +919,8 @@ Section Main.
       try (inversion H; subst; reflexivity).
     - inversion H; subst. destruct (n =? 0); reflexivity.
     - destruct v; inversion H; subst; reflexivity.
-    - inversion H; subst. unfold float_dv. destruct (f64_is_nan bits); reflexivity.
+    - inversion H; subst. unfold float_dv. destruct (f64_is_nan bits); [reflexivity|].
+      destruct (bits =? neg_zero_bits); reflexivity.
     - destruct v; inversion H; subst; reflexivity.
     - inversion H; subst. destruct d0; reflexivity.
     - destruct v as [d0|]; inversion H; subst; [destruct d0|]; reflexivity.
@@ -840,53 +963,75 @@ Section Main.
     exact Hkv.
   Qed.
 
+  Definition ok_types : list N :=
+    [AT_Uint8; AT_String; AT_ResourceID; AT_Uint16; AT_Int16; AT_Uint32; AT_Int32; AT_Uint64; AT_Int64;
+     AT_Float64; AT_Int8; AT_Float32].
+
+  Lemma array_ok_types t data : array_ok uc t data = true -> In t ok_types.
+  Proof.
+    unfold array_ok. intro H. repeat (apply orb_true_iff in H as [H|H]).
+    - apply N.eqb_eq in H. subst. cbn. tauto.
+    - apply N.eqb_eq in H. subst. cbn. tauto.
+    - apply andb_true_iff in H as [H _]. apply N.eqb_eq in H. subst. cbn. tauto.
+    - apply andb_true_iff in H as [H _]. apply andb_true_iff in H as [Hw _].
+      apply negb_true_iff in Hw. apply N.eqb_neq in Hw. unfold wide_width in Hw.
+      destruct (N.eqb_spec t AT_Uint16); [subst; cbn; tauto|].
+      destruct (N.eqb_spec t AT_Int16); [subst; cbn; tauto|]. cbn [orb] in Hw.
+      destruct (N.eqb_spec t AT_Uint32); [subst; cbn; tauto|].
+      destruct (N.eqb_spec t AT_Int32); [subst; cbn; tauto|]. cbn [orb] in Hw.
+      destruct (N.eqb_spec t AT_Uint64); [subst; cbn; tauto|].
+      destruct (N.eqb_spec t AT_Int64); [subst; cbn; tauto|].
+      destruct (N.eqb_spec t AT_Float64); [subst; cbn; tauto|]. cbn [orb] in Hw.
+      destruct (N.eqb_spec t AT_Int8); [subst; cbn; tauto|]. contradiction.
+    - repeat (apply andb_true_iff in H as [H _]). apply N.eqb_eq in H. subst. cbn. tauto.
+  Qed.
+
+  Lemma ok_types_facts t : In t ok_types -> (t <? AT_Count) = true /\ (elem_bits t =? 0) = false.
+  Proof.
+    intro H. assert (F : forallb (fun t => (t <? AT_Count) && negb (elem_bits t =? 0)) ok_types = true)
+      by (vm_compute; reflexivity).
+    rewrite forallb_forall in F. specialize (F t H). apply andb_true_iff in F as [F1 F2].
+    apply negb_true_iff in F2. auto.
+  Qed.
+
   Lemma chunked_leaf p b body :
     chunked_ok uc p b body = true ->
     exists data sc d,
-      chunked_data body = Some data /\ sem (TChunked b body) = Some d /\
-      (forall st, fire uc tc (set_chunk st data 0 false (abegin_cb b))
-                  = on_scalar uc tc sc (set_chunk st data 0 false (abegin_cb b))) /\
+      chunked_data (abegin_bits b) body = Some data /\ sem (TChunked b body) = Some d /\
+      (forall st, step uc tc st (begin_event b)
+                  = ROk (set_chunk st [] (crem st) (cmore st) (abegin_cb b) (abegin_bits b))) /\
+      (forall st, fire uc tc (set_chunk st data 0 false (abegin_cb b) (abegin_bits b))
+                  = on_scalar uc tc sc (set_chunk st data 0 false (abegin_cb b) (abegin_bits b))) /\
       (forall env, erase [] env d = Some (d, env)) /\
       forall n, exists x, conv uc tc n sc = Some x /\ to_dv x = d /\ has_hole x = false /\
                           (p = PKey -> keyval x = true).
   Proof.
-    unfold chunked_ok. destruct (chunked_data body) as [data|] eqn:Hcd; [|discriminate].
-    destruct (chunk_data 1 body 0 false []) as [data'|] eqn:Hck; [|discriminate].
+    unfold chunked_ok. destruct (chunked_data (abegin_bits b) body) as [data|] eqn:Hcd; [|discriminate].
+    destruct (chunk_data (abegin_elem_bytes b) body 0 false []) as [data'|] eqn:Hck; [|discriminate].
     intro H. apply andb_true_iff in H as [He H]. apply bytes_eqb_eq in He. subst data'.
     destruct b as [t|mt|t ct]; [| |discriminate].
     - (* array *)
-      assert (Hgen : forall T, t = T -> abegin_elem_bytes (ABArray T) = 1 -> elem_bits T =? 0 = false ->
-                array_ok uc T data = true -> array_dv T data = array_dv T data ->
-                (is_key p = true -> T = AT_String) ->
-                exists data0 sc d,
-                  Some data = Some data0 /\ sem (TChunked (ABArray t) body) = Some d /\
-                  (forall st, fire uc tc (set_chunk st data0 0 false (abegin_cb (ABArray t)))
-                              = on_scalar uc tc sc (set_chunk st data0 0 false (abegin_cb (ABArray t)))) /\
-                  (forall env, erase [] env d = Some (d, env)) /\
-                  forall n, exists x, conv uc tc n sc = Some x /\ to_dv x = d /\ has_hole x = false /\
-                                      (p = PKey -> keyval x = true)).
-      { intros T HT Hw Hb Hok _ Hkey. subst t.
-        exists data, (SArr T data), (array_dv T data).
-        split; [reflexivity|]. split.
-        { cbn [sem]. rewrite Hw, Hck. reflexivity. }
-        split. { intro st. cbn [fire ccb set_chunk abegin_cb]. rewrite Hb. reflexivity. }
-        split. { intro env. apply (event_dv_erase (EArray T 0 data)). reflexivity. }
-        intro n. destruct (array_conv uc tc T data n Hok) as [x [Hc [Hd Hh]]].
-        exists x. split; [exact Hc|]. split; [exact Hd|]. split; [exact Hh|].
-        intro Hp. subst p. rewrite (Hkey eq_refl) in Hc. cbn in Hc. inversion Hc; subst. reflexivity. }
-      destruct (is_key p) eqn:Hkp.
-      + apply N.eqb_eq in H. apply (Hgen AT_String H); reflexivity.
-      + apply orb_true_iff in H as [H|H]; [apply orb_true_iff in H as [H|H]|].
-        * apply N.eqb_eq in H. apply (Hgen AT_String H); reflexivity.
-        * apply N.eqb_eq in H. apply (Hgen AT_Uint8 H); try reflexivity. intro Hx; congruence.
-        * apply andb_true_iff in H as [H Hu]. apply N.eqb_eq in H.
-          apply (Hgen AT_ResourceID H); try reflexivity; [|intro Hx; congruence].
-          unfold array_ok. rewrite Hu. reflexivity.
+      assert (Hok : array_ok uc t data = true /\ (is_key p = true -> t = AT_String)).
+      { destruct (is_key p).
+        - apply N.eqb_eq in H. subst. split; [reflexivity|auto].
+        - split; [exact H|discriminate]. }
+      destruct Hok as [Hok Hkey].
+      destruct (ok_types_facts t (array_ok_types t data Hok)) as [Hlt Hbits].
+      exists data, (SArr t data), (array_dv t data).
+      split; [reflexivity|]. split.
+      { cbn [sem]. rewrite Hck. reflexivity. }
+      split. { intro st. cbn [step begin_event]. rewrite Hlt. reflexivity. }
+      split. { intro st. cbn [fire ccb set_chunk abegin_cb]. rewrite Hbits. reflexivity. }
+      split. { intro env. apply (event_dv_erase (EArray t 0 data)). reflexivity. }
+      intro n. destruct (array_conv uc tc t data n Hok) as [x [Hc [Hd Hh]]].
+      exists x. split; [exact Hc|]. split; [exact Hd|]. split; [exact Hh|].
+      intro Hp. subst p. rewrite (Hkey eq_refl) in Hc. cbn in Hc. inversion Hc; subst. reflexivity.
     - (* media *)
       apply andb_true_iff in H as [Hk Hmt]. apply negb_true_iff in Hk.
       exists data, (SMedia mt data), (DMedia mt data).
       split; [reflexivity|]. split.
-      { cbn [sem abegin_elem_bytes]. rewrite Hck. reflexivity. }
+      { cbn [sem]. rewrite Hck. reflexivity. }
+      split. { intro st. reflexivity. }
       split. { intro st. reflexivity. }
       split. { intro env. reflexivity. }
       intro n. eexists. split; [reflexivity|]. split; [reflexivity|]. split; [reflexivity|].
@@ -897,9 +1042,9 @@ Section Main.
   Proof.
     intros ids p ids' Hs mk st base d Hst Hk Hn Hnode Hnm Hft Hrdy Hp Hids Hcl Hsem Hfresh.
     cbn [supp] in Hs. destruct (chunked_ok uc p b body) eqn:Hl; [|discriminate]. inversion Hs; subst ids'.
-    destruct (chunked_leaf p b body Hl) as [data [sc [dd [Hcd [Hsm [Hfire [Her Hconv]]]]]]].
+    destruct (chunked_leaf p b body Hl) as [data [sc [dd [Hcd [Hsm [Hbeg [Hfire [Her Hconv]]]]]]]].
     rewrite Hsm in Hsem. inversion Hsem; subst dd.
-    set (st1 := set_chunk st data 0 false (abegin_cb b)).
+    set (st1 := set_chunk st data 0 false (abegin_cb b) (abegin_bits b)).
     destruct (Hconv (next st1)) as [x [Hc [Hd [Hh Hkv]]]].
     destruct (ready_put base (tobj st) x false Hrdy) as [s' [t' Hput]].
     destruct (scalar_arrival uc tc sc x mk base st1 s' t') as [st' [Hon [Hs' [Ht' [Hm' Hp']]]]];
@@ -907,7 +1052,7 @@ Section Main.
     { apply (node_top_false mk base (TChunked b body) Hnode eq_refl). }
     { intros id Hid. destruct (Hfresh id Hid) as [_ Hf]. rewrite Hids in Hf. exact Hf. }
     exists st', x, (marked st). split.
-    { cbn [flat]. rewrite (chunked_exec uc tc b body data st Hcd). rewrite Hfire. exact Hon. }
+    { cbn [flat]. rewrite (chunked_exec uc tc b body data st (Hbeg st) Hcd). rewrite Hfire. exact Hon. }
     split. { cbn [contb]. rewrite Hs', Ht'. exact Hput. }
     split. { exact Hm'. }
     split. { symmetry. exact Hids. }
@@ -1204,7 +1349,7 @@ Section Main.
     destruct k; try contradiction; intros _ Hs Hsem env.
     - cbn [sem] in Hsem. apply (event_dv_erase e dk env Hsem).
     - cbn [supp] in Hs. destruct (chunked_ok uc PKey b body) eqn:Hl; [|discriminate].
-      destruct (chunked_leaf PKey b body Hl) as [data [sc [dd [_ [Hsm [_ [Her _]]]]]]].
+      destruct (chunked_leaf PKey b body Hl) as [data [sc [dd [_ [Hsm [_ [_ [Her _]]]]]]]].
       rewrite Hsm in Hsem. inversion Hsem; subst dd. apply Her.
   Qed.
 
@@ -1549,15 +1694,6 @@ Definition w_edge_in_list : dt := TList [w_edge; TLeaf (EPosInt 4)].
 Lemma edge_in_list_refuted : refutes [] w_edge_in_list.
 Proof. refute_err. Qed.
 
-(* two record types: Context.recordType is truncated to [:0] and reused, the second
-   declaration overwrites the keys of the first *)
-Definition w_rec_rts : list rtdecl :=
-  [([120], [TLeaf (EPosInt 1); TLeaf (EPosInt 2)]); ([121], [TLeaf (EPosInt 3)])].
-Definition w_rec : dt :=
-  TList [TRecord [120] [TLeaf (EPosInt 5); TLeaf (EPosInt 6)]; TRecord [121] [TLeaf (EPosInt 7)]].
-Lemma record_types_refuted : refutes w_rec_rts w_rec.
-Proof. refute_data. Qed.
-
 (* a reference in key position: stored under the previous key *)
 Definition w_refkey : dt :=
   TMap [(TMark [97] (TLeaf (EStringArray AT_String [107])), TLeaf (EPosInt 1)); (TRef [97], TLeaf (EPosInt 2))].
@@ -1573,11 +1709,6 @@ Definition w_marked_node_value : dt := TNode (TMark [97] (TLeaf (EPosInt 1))) [T
 Lemma marker_on_node_value_refuted : refutes [] w_marked_node_value.
 Proof. refute_err. Qed.
 
-(* -0 given as a negative integer becomes the float +0 *)
-Definition w_negzero : dt := TList [TLeaf (ENegInt 0)].
-Lemma negative_zero_refuted : refutes [] w_negzero.
-Proof. refute_data. Qed.
-
 (* typed arrays the interface builder has no case for *)
 Definition w_bit_array : dt := TList [TLeaf (EArray AT_Bit 3 [5])].
 Lemma bit_array_refuted : refutes [] w_bit_array.
@@ -1588,11 +1719,6 @@ Proof. refute_err. Qed.
 Definition w_custom : dt := TList [TLeaf (ECustomBin 1 [1; 2])].
 Lemma custom_type_refuted : refutes [] w_custom.
 Proof. refute_err. Qed.
-
-(* a uint16 array in chunks: the completion test compares elements with bytes, the array is dropped *)
-Definition w_chunked_u16 : dt := TList [TChunked (ABArray AT_Uint16) [EArrayChunk 2 false; EArrayData [1; 0; 2; 0]]].
-Lemma chunked_wide_array_refuted : refutes [] w_chunked_u16.
-Proof. refute_data. Qed.
 
 (* float16 arrays come back as []float32 and are marshaled as float32 arrays *)
 Definition w_f16 : dt := TList [TLeaf (EArray AT_Float16 1 [192; 63])].
